@@ -2,7 +2,7 @@ SPEC = {
     'id': 'C07',
     'harness': 'hC07',
     'coq_dir': 'C07',
-    'claimed': False,
+    'claimed': True,
     'theorems': ['C07_merged_eq_overlay', 'C07_list_spec_partial', 'C07_db_list_spec_partial',
                  'C07_paging_complete_partial', 'C07_db_paging_complete_partial',
                  'C07_expected_char', 'C07_expected_nodup',
